@@ -46,7 +46,7 @@ def run(tier, seed):
             root = os.path.join(real_tmp, "root")
             sentinels = {}
             for rel, kind, payload in nodes:
-                if kind == "f" and payload.startswith(b"SENTINEL"):
+                if kind == "f" and b"SENTINEL" in payload[:12]:
                     sentinels[payload.decode("utf-8", "replace")] = os.path.join(real_tmp, rel)
             for listing in (False, True):
                 # index file names: the default pair, or a configured list (pathlib joins each name to the directory: slashes
